@@ -13,6 +13,18 @@ claimed = {
    text="Bounded-exhaustive exploration of the accepted-schema universe (core = every feature combination of sebuf's own docs/testdata; extended = deviation-bounded families) times the four plugin subsets/orders {go-http, go-client, go-http+go-client, go-client+go-http}: the real plugins generate, the real Go compiler (go build -gcflags=-e) and the go-test vet subset judge each package, and node 22 imports each emitted TypeScript module. The oracle is the compiler/loader itself, so the level is exhaustive-over-programs rather than sampled goldens.",
    note="Assumes: " + TB + "; protovalidate runtime replaced by an API-compatible stand-in; TypeScript judged by node 22 type stripping (syntax + module load), not by a type checker (none available).",
    tech="bounded-exhaustive enumeration of schemas x plugin subsets, compiled/vetted/loaded by the real toolchains", ref="DESIGN.md section 8 C13"),
+ "C04": dict(
+   text="Bounded-exhaustive exploration of message value spaces on the real generated codecs: for every message of every codec unit the product of per-field boundary domains is enumerated completely when small, else every point with at most d non-default fields (d reported), and each value is driven through own-output, canonical-contract and explicit-contract decoding via the entry points the server and client really use, on the go-http and the go-client-only build. Oracle: equality up to the documented losses (model.Normalise) and M-json, an independent executable model of the documented mapping.",
+   note="Trusted: protojson as reference for unannotated proto3 JSON, M-json model (DESIGN appendix F), value domains of DESIGN 4.3. Values outside the boundary domains and messages with more than d simultaneous non-default fields are not covered.",
+   tech="exhaustive enumeration of bounded value spaces against a reference model (M-json), executed on generated code", ref="DESIGN.md section 8 C04"),
+ "C05": dict(
+   text="Every enumerated value of every echo RPC's message type is sent through the real generated server (in-process wire transport: bytes serialised and re-parsed) in both directions and the JSON on the wire is compared as a value with M-json, the executable model of the documented mapping applied at every depth. Exhaustive over the bounded value space and over the context family (top-level, child, list element, map value, oneof variant).",
+   note="Trusted: M-json model written from the annotation documentation; JSON compared as values (numbers by exact digits). Only body-carrying routes without URL-bound fields are used to carry the messages.",
+   tech="exhaustive enumeration of bounded value spaces through the generated server, compared with a reference model", ref="DESIGN.md section 8 C05"),
+ "C01": dict(
+   text="For every RPC of every service unit and both transports (JSON, binary protobuf) every enumerated request value (URL-bound fields over their boundary domains incl. reserved URL characters and integer extremes) and every enumerated response value is sent generated Go client -> byte-level in-process wire -> generated Go server -> recording handler; oracle = the handler of the same RPC saw an equal request and the caller got an equal response. Exhaustive over the bounded schema x value x content-type space.",
+   note="Trusted: wire transport built from net/http's own Request.Write/ReadRequest/Response.Write/ReadResponse; equality up to documented JSON-annotation losses; -0 and +0 are identified; required query parameters and path variables only take non-empty values; application/octet-stream is not offered by the client API and is not exercised.",
+   tech="exhaustive enumeration of schemas x values x transports, executed client->wire->server, compared with identity", ref="DESIGN.md section 8 C01"),
 }
 NA_REASON = "check not built yet (build in progress; see DESIGN.md section 14)"
 checks = []
